@@ -353,11 +353,15 @@ func c19LRU(c *core.Ctx, pkg *packages.Package) {
 		c.Check(order && valOK, "R3", "LRUCache."+m+":write-through", local.Expr.Pos(), fmt.Sprintf("backend %s precedes the local insert (=%v); local item = %s", m, order, lit), 1)
 		if m == "Add" {
 			IC := fn.Canon(inner.Expr)
-			t := an.Table{G: g, From: g.EntryLoc(), MayOnly: true, Atoms: []an.Atom{{Name: "ok", Values: []string{"T", "F"}}},
+			t := an.Table{G: g, From: g.EntryLoc(), FreeUnknown: true, Atoms: []an.Atom{{Name: "ok", Values: []string{"T", "F"}}},
 				Binder: &an.Binder{Fn: fn, Eq: map[string]string{IC + "|nil": "ok"}}, Targets: []an.Loc{g.Locate(local.Expr)},
 				Want: func(r an.Row, _ int) an.Tri { return an.FromBool(r["ok"] == "T") }}
 			res := t.Run()
-			c.Check(res.OK(), "R3", "LRUCache.Add:on-success", local.Expr.Pos(), "Add inserts locally only when the backend Add returned nil: "+res.Summary(), res.Rows)
+			c.Check(res.OK(), "R3", "LRUCache.Add:on-success", local.Expr.Pos(), "Add inserts locally ⇔ the backend Add returned nil, under no other condition (a stale local copy must be replaced): "+res.Summary(), res.Rows)
+		} else {
+			ex := g.Exec(g.EntryLoc(), []an.Loc{g.Locate(local.Expr)}, func(ast.Expr, an.Store) an.Tri { return an.U }, an.ExecOpts{Unroll: 0})
+			uncond := ex.Must[0] || loopOf(fn, local.Expr) != nil
+			c.Check(uncond, "R3", "LRUCache."+m+":unconditional", local.Expr.Pos(), "the local insert happens on every path (for every entry)", ex.Paths)
 		}
 	}
 	// read path
